@@ -126,7 +126,8 @@ fn faulted_set(p: &Plan) -> (ModuleSet, Vec<(usize, String, String)>) {
                 "VideotexString" => a.text = format!("{} ::= VideotexString", a.name),
                 "inverted-range" => a.text = format!("{} ::= INTEGER (5..1)", a.name),
                 _ => {
-                    let up = a.name.to_uppercase();
+                    // (a name of its own: an all-caps type of that spelling may already exist)
+                    let up = format!("{}-MACRO", a.name.to_uppercase());
                     a.text = format!("{up} MACRO ::= BEGIN TYPE NOTATION ::= empty VALUE NOTATION ::= value(VALUE INTEGER) END");
                     a.name = up;
                 }
@@ -371,6 +372,25 @@ impl Scenario for C10Faults {
             out.inconclusive.push("output does not parse".into());
             return out;
         };
+        // ---- oracle 1 on the fault-free run itself: the reference input compiles without warnings,
+        // so every type and value assignment must be REPRESENTED: leaving it out must make at
+        // least one item disappear
+        if rf.r0.warnings.is_empty() {
+            for (mi, m) in p.set.modules.iter().enumerate() {
+                for a in &m.assigns {
+                    if !matches!(a.kind, AKind::Type | AKind::Value) {
+                        continue;
+                    }
+                    if rf.raw.get(mi).and_then(|r| r.get(&a.name)).is_some_and(|items| items.is_empty()) {
+                        out.violate(
+                            "no-silent-loss",
+                            format!("fault-free compilation, no warnings: leaving out definition {} of module {} changes no item of the output, i.e. it is not represented in the bindings; backend {}", a.name, m.name, p.backend.short()),
+                        );
+                    }
+                }
+            }
+            out.count("fault_free_runs_checked_for_completeness", 1);
+        }
         // which definitions are faulted / dependents of an input-level fault
         let mut faulted: BTreeSet<(usize, String)> = BTreeSet::new();
         let mut affected: BTreeSet<(usize, String)> = BTreeSet::new();
